@@ -33,6 +33,7 @@ type CallRec struct {
 	InTxn  bool
 	Subs   []*CallRec // calls made inside a transaction body
 	TxnOK  bool       // transaction committed
+	Commits []int     // commits (indices into the commit history) made while this top-level call ran
 }
 
 // actor executes the script of one task.
@@ -43,6 +44,7 @@ type actor struct {
 	calls []*CallRec
 
 	sctx    lungo.ISessionContext // set while inside a session transaction
+	pendingCommits []int
 	streams []*streamState
 	stale   []*lungo.Transaction
 
@@ -129,6 +131,9 @@ func (a *actor) call(op *Op, fn func(c *CallRec)) *CallRec {
 	}()
 	e.opSeq++
 	c.Ret, c.RetCom, c.RetAt = e.opSeq, len(e.commits), e.sim.Elapsed()
+	if !c.InTxn {
+		c.Commits, a.pendingCommits = a.pendingCommits, nil
+	}
 	a.calls = append(a.calls, c)
 	a.t.Progress++
 	e.logf("[%s] %s -> %s", a.t.Name, opStr(op), callStr(c))
@@ -257,6 +262,28 @@ func (a *actor) exec(op *Op) *CallRec {
 		return a.withTxn(op)
 	case "s.start", "s.commit", "s.abort", "s.end":
 		return a.sharedSession(op)
+	case "rmw":
+		// read-modify-write of a counter: only atomic inside a transaction
+		return a.call(op, func(c *CallRec) {
+			ctx, done := a.ctxFor(op)
+			defer done()
+			key := op.D.doc()
+			r1, err := drive(ctx, e.client, &Op{K: "findOne", DB: op.DB, C: op.C, F: jd(key)})
+			if err != nil {
+				c.Err = err
+				return
+			}
+			c.Res.Docs, c.Res.NoDoc = r1.Docs, r1.NoDoc
+			n := int32(0)
+			if len(r1.Docs) > 0 {
+				if v, ok := model.Get(r1.Docs[0], "n").(int32); ok {
+					n = v
+				}
+			}
+			r2, err := drive(ctx, e.client, &Op{K: "updateOne", DB: op.DB, C: op.C, F: jd(key), U: jd(bson.D{{Key: "$set", Value: bson.D{{Key: "n", Value: n + 1}, {Key: "by", Value: op.Tag}}}}), Upsert: true})
+			c.Err = err
+			c.Res.Matched, c.Res.Modified, c.Res.Upserted, c.Res.IDs = r2.Matched, r2.Modified, r2.Upserted, r2.IDs
+		})
 	case "s.op":
 		// a driver call carrying the shared session (joins its transaction if one is open)
 		return a.call(op, func(c *CallRec) {
